@@ -435,7 +435,7 @@ vars == <<S, hist, ticks>>
 Rel(s, v) == IF v - s.now < -1 THEN -1 ELSE v - s.now
 Norm(s) == [s EXCEPT !.now = 0,
                      !.wake = [t \in Thr |-> IF s.pend[t].op \in {"sleep", "slept"} THEN (IF s.wake[t] - s.now < 0 THEN 0 ELSE s.wake[t] - s.now) ELSE 0],
-                     !.tstop = [t \in Thr |-> IF s.pc[t] \in {"s_lockM", "s_unlockM", "s_sleep", "s_slept", "f_sleep", "f_slept"} THEN Rel(s, s.tstop[t]) ELSE 0]]
+                     !.tstop = [t \in Thr |-> IF s.pc[t] \in {"s_lockM", "s_unlockM", "s_sleep", "s_slept", "f_sleep", "f_slept", "f_pLockM", "f_pUnlockM"} THEN Rel(s, s.tstop[t]) ELSE 0]]
 
 Init == S = S0(cK) /\ hist = <<>> /\ ticks = 0
 ThreadStep(t) == Enabled(S, t) /\ S' = Norm(Step(S, t)) /\ hist' = %(hist_thread)s /\ UNCHANGED ticks
